@@ -395,6 +395,7 @@ struct Walker<'s> {
     closures: usize,
     ifs: usize,
     folds: usize,
+    block_stmts: HashMap<String, usize>,
     env: Vec<HashMap<String, (K, K)>>,
     used: HashSet<String>,
     cut_defs: Vec<String>,
@@ -582,6 +583,7 @@ impl<'s> Walker<'s> {
     fn walk_block(&mut self, b: &syn::Block, name: &str) {
         self.env.push(HashMap::new());
         let n = b.stmts.len();
+        self.block_stmts.insert(name.to_string(), n);
         for (k, st) in b.stmts.iter().enumerate() {
             let key = format!("{}.s{}", name, k);
             let st_start = self.stmt_start(st);
@@ -1475,6 +1477,7 @@ fn extract_fn(src: &Src, file: &syn::File, selector: &str, ov: &FnOverlay, map: 
         closures: 0,
         ifs: 0,
         folds: 0,
+        block_stmts: HashMap::new(),
         env: vec![HashMap::new()],
         used: HashSet::new(),
         cut_defs: Vec::new(),
@@ -1512,7 +1515,7 @@ fn extract_fn(src: &Src, file: &syn::File, selector: &str, ov: &FnOverlay, map: 
                 }
                 first = false;
                 // parameter type with R3 applied
-                let mut tw = Walker { src, ov, edits: Vec::new(), depth: 0, loops: 0, closures: 0, ifs: 0, folds: 0, env: vec![HashMap::new()], used: HashSet::new(), cut_defs: vec![], cut_info: vec![], r2: true };
+                let mut tw = Walker { src, ov, edits: Vec::new(), depth: 0, loops: 0, closures: 0, ifs: 0, folds: 0, block_stmts: HashMap::new(), env: vec![HashMap::new()], used: HashSet::new(), cut_defs: vec![], cut_info: vec![], r2: true };
                 tw.walk_type(&pt.ty);
                 let (ts, te) = src.range(pt.ty.span());
                 let (tytxt, _) = apply(src, ts, te, &mut tw.edits);
@@ -1527,7 +1530,7 @@ fn extract_fn(src: &Src, file: &syn::File, selector: &str, ov: &FnOverlay, map: 
     }
     head.push(')');
     if let syn::ReturnType::Type(_, ty) = &sig.output {
-        let mut tw = Walker { src, ov, edits: Vec::new(), depth: 0, loops: 0, closures: 0, ifs: 0, folds: 0, env: vec![HashMap::new()], used: HashSet::new(), cut_defs: vec![], cut_info: vec![], r2: true };
+        let mut tw = Walker { src, ov, edits: Vec::new(), depth: 0, loops: 0, closures: 0, ifs: 0, folds: 0, block_stmts: HashMap::new(), env: vec![HashMap::new()], used: HashSet::new(), cut_defs: vec![], cut_info: vec![], r2: true };
         tw.walk_type(ty);
         let (ts, te) = src.range(ty.span());
         let (tytxt, _) = apply(src, ts, te, &mut tw.edits);
@@ -1548,7 +1551,7 @@ fn extract_fn(src: &Src, file: &syn::File, selector: &str, ov: &FnOverlay, map: 
         let mut sr: Vec<(&'static str, usize)> = Vec::new();
         if let Some(im) = sel.imp {
             let g = generics_text(src, &im.generics, &mut sr);
-            let mut tw = Walker { src, ov, edits: Vec::new(), depth: 0, loops: 0, closures: 0, ifs: 0, folds: 0, env: vec![HashMap::new()], used: HashSet::new(), cut_defs: vec![], cut_info: vec![], r2: true };
+            let mut tw = Walker { src, ov, edits: Vec::new(), depth: 0, loops: 0, closures: 0, ifs: 0, folds: 0, block_stmts: HashMap::new(), env: vec![HashMap::new()], used: HashSet::new(), cut_defs: vec![], cut_info: vec![], r2: true };
             tw.walk_type(&im.self_ty);
             let (ts, te) = src.range(im.self_ty.span());
             let (selfty, _) = apply(src, ts, te, &mut tw.edits);
@@ -1564,7 +1567,17 @@ fn extract_fn(src: &Src, file: &syn::File, selector: &str, ov: &FnOverlay, map: 
         }
         text.push_str("#[verifier::external_body] // STUB: contract proved in the callee's own unit\n");
         text.push_str(&head);
-        text.push_str("{ unimplemented!() }\n");
+        if ov.opts.get("stub_body").map(|v| v == "real").unwrap_or(false) {
+            // an `impl Trait` return type needs a body of the right type: the real (rewritten) body is compiled, not verified
+            w.walk_block(sel.block, "fn");
+            let (bs, be) = src.range(sel.block.span());
+            let mut edits = std::mem::take(&mut w.edits);
+            let (body, _) = apply(src, bs, be, &mut edits);
+            text.push_str(&body);
+            text.push('\n');
+        } else {
+            text.push_str("{ unimplemented!() }\n");
+        }
         if sel.imp.is_some() {
             text.push_str("}\n");
         }
@@ -1601,6 +1614,10 @@ fn extract_fn(src: &Src, file: &syn::File, selector: &str, ov: &FnOverlay, map: 
             "ifs" => w.ifs,
             "folds" => w.folds,
             "stmts" => sel.block.stmts.len(),
+            other if other.ends_with(".stmts") => {
+                let b = &other[..other.len() - 6];
+                *w.block_stmts.get(b).unwrap_or_else(|| die(&format!("lost anchor: block `{}` does not exist in `{}`", b, selector)))
+            }
             _ => die(&format!("unknown @expect key {}", k)),
         };
         if have != *v {
@@ -1640,7 +1657,7 @@ fn extract_fn(src: &Src, file: &syn::File, selector: &str, ov: &FnOverlay, map: 
     let mut pre_lines = 0usize;
     if let Some(im) = sel.imp {
         let g = generics_text(src, &im.generics, &mut sigrules);
-        let mut tw = Walker { src, ov, edits: Vec::new(), depth: 0, loops: 0, closures: 0, ifs: 0, folds: 0, env: vec![HashMap::new()], used: HashSet::new(), cut_defs: vec![], cut_info: vec![], r2: true };
+        let mut tw = Walker { src, ov, edits: Vec::new(), depth: 0, loops: 0, closures: 0, ifs: 0, folds: 0, block_stmts: HashMap::new(), env: vec![HashMap::new()], used: HashSet::new(), cut_defs: vec![], cut_info: vec![], r2: true };
         tw.walk_type(&im.self_ty);
         let (ts, te) = src.range(im.self_ty.span());
         let (selfty, _) = apply(src, ts, te, &mut tw.edits);
@@ -1731,7 +1748,7 @@ fn extract_struct(src: &Src, file: &syn::File, name: &str, opts: &HashMap<String
                 t.push_str(&format!("pub struct {}{} {{\n", s.ident, g));
                 let mut n_r3 = 0;
                 for f in s.fields.iter() {
-                    let mut tw = Walker { src, ov: &ov, edits: Vec::new(), depth: 0, loops: 0, closures: 0, ifs: 0, folds: 0, env: vec![HashMap::new()], used: HashSet::new(), cut_defs: vec![], cut_info: vec![], r2: true };
+                    let mut tw = Walker { src, ov: &ov, edits: Vec::new(), depth: 0, loops: 0, closures: 0, ifs: 0, folds: 0, block_stmts: HashMap::new(), env: vec![HashMap::new()], used: HashSet::new(), cut_defs: vec![], cut_info: vec![], r2: true };
                     tw.walk_type(&f.ty);
                     n_r3 += tw.edits.len();
                     let (ts, te) = src.range(f.ty.span());
